@@ -153,6 +153,12 @@ def classes_of(case):
     out = ["scheme:" + case["scheme"], "profile:" + case["db"].get("profile", "?")]
     out += ["boundary:" + b for b in desc.boundary_classes(case["cfg"], lens)]
     out.append("cfg:default" if desc.is_default(S.public_cfg(case["cfg"])) else "cfg:non_default")
+    if case.get("key_pattern"):
+        out.append("key_bytes:" + case["key_pattern"])
+    if case["db"].get("alias"):
+        out.append("db:one_list_object_under_two_keywords")
+    if case["db"].get("id_mode") == "special":
+        out.append("db:identifiers_with_structured_content")
     return out
 
 
